@@ -385,7 +385,7 @@ def run(ctx):
              "undisc_nonconstant_gain": 0, "undisc_M_positive": 0, "undisc_nonzero_gain": 0,
              "undisc_with_terminal": 0, "undisc_pos_and_neg_rewards": 0, "stochastic_policy_rows": 0,
              "not_converged_by_kind": {}, "lp_agrees": 0, "lp_compared": 0,
-             "undisc_support_tight_for_reported_bias": 0}
+             "undisc_support_tight_for_reported_bias": 0, "absorbing_vec_differs_from_model": 0}
     distinct, prepared = set(), {}
     for i, (case, res) in enumerate(zip(cases, impl)):
         stats["kinds"][case["kind"]] = stats["kinds"].get(case["kind"], 0) + 1
@@ -450,6 +450,8 @@ def run(ctx):
                 stats["lp_compared"] += 1
                 stats["lp_agrees"] += int(all(abs(fr(x) - y) <= F(1, 10**6) * d["scale"] for x, y in zip(lp["g"], d["g"])))
         stats["stochastic_policy_rows"] += int(any(sum(1 for x in row if x > 0) > 1 for row in d["pi"]))
+        # drift counter: the model's absorbing set (computed from the arrays) vs msdm's absorbing_state_vec
+        stats["absorbing_vec_differs_from_model"] += int(list(res.get("absorbing_vec", [])) != list(d["absorbing"]))
         if failed:
             why = search_failing(case, res, d)
             detail = {"case": case, "failed_clauses": failed, "impl": out,
